@@ -291,6 +291,9 @@ def _run_ohe_literal(rep, lim):
 
 
 
+OMITS = [[], ['alphabet'], ['ignore'], ['dtype'], ['alphabet', 'ignore'], ['alphabet', 'ignore', 'dtype']]
+
+
 def _run_ohe(rep, lim):
     _run_ohe_literal(rep, lim)
     rng, thorough = rep.rng, rep.tier == 'thorough'
@@ -303,9 +306,86 @@ def _run_ohe(rep, lim):
                 configs.append((alphabet, _rand_ignore(rng, alphabet, I)))
     configs.append((['A', 'C', 'G', 'T'], ['N']))
     configs.append((['N', 'C'], ['x']))          # N is a letter and another character is ignored
+    # larger ignore sets (3-8 characters, some with smaller / larger codes than every letter, one entry repeated)
+    big_ign = []
+    for A in (1, 2, 4, 8):
+        alphabet = _rand_alphabet(rng, A)
+        ign = _rand_ignore(rng, alphabet, rng.randint(3, 8))
+        big_ign.append((alphabet, ign + ign[:1]))
+    big_ign.append((['A', 'C', 'G', 'T'], ['N', 'n', '-', '.', '*', 'X']))
+    # rejection (cheap, first): one outside character at every position of short base strings ...
+    outsiders_extra = ['é', '中']
+    for alphabet, ignore in configs + big_ign:
+        pool = [chr(c) for c in range(1, 128) if chr(c) not in alphabet and chr(c) not in ignore]
+        outs = rng.sample(pool, 3) + outsiders_extra
+        # the other-case twin of a letter / of an ignored character
+        twins = [ch.swapcase() for ch in alphabet + ignore if ch.swapcase() != ch and len(ch.swapcase()) == 1
+                 and ch.swapcase() not in alphabet and ch.swapcase() not in ignore]
+        outs += list(dict.fromkeys(twins))[:2]
+        for b in range(3):
+            base = ''.join(rng.choice(alphabet + ignore) for _ in range(rng.randint(0, 6)))
+            for o in outs:
+                for p in range(len(base) + 1):
+                    if rep.out_of_time():
+                        return
+                    case = {'kind': 'reject', 'alphabet': alphabet, 'ignore': ignore, 's': base[:p] + o + base[p:]}
+                    if alphabet == ACGT and ignore == ['N']:
+                        case['omit'] = OMITS[(p + b) % 3]
+                    v = check_reject(case)
+                    rep.case(('rej', tuple(alphabet), tuple(ignore), case['s']), section='ohe-reject',
+                             sample=case if (b == 0 and p == 0 and o == outs[0]) else None)
+                    lim.report(v, case, 'outside-character-accepted')
+    # ... and one outside character in a long string (first / last / middle / random position)
+    for k in range(400 if thorough else 60):
+        if rep.out_of_time():
+            return
+        alphabet = ACGT if k % 5 == 0 else _rand_alphabet(rng, rng.randint(1, 8))
+        ignore = ['N'] if k % 5 == 0 else _rand_ignore(rng, alphabet, rng.randint(0, 3))
+        L = [65, 257, 1000, 4097, 5000, 20000, 65537, 100000][k % 8]
+        pos = [0, L - 1, L // 2, rng.randrange(L), L - 2, 1][k % 6]
+        pool = [chr(c) for c in range(1, 128) if chr(c) not in alphabet and chr(c) not in ignore]
+        o = rng.choice(pool + ['é'])
+        base = ''.join(rng.choices(alphabet + ignore, k=L - 1))
+        case = {'kind': 'reject', 'alphabet': alphabet, 'ignore': ignore, 's': base[:pos] + o + base[pos:]}
+        v = check_reject(case)
+        rep.case(('rej-long', k), section='ohe-reject-long')
+        lim.report(v, case, 'outside-character-accepted')
+    # random long strings
+    for k in range(1500 if thorough else 150):
+        if rep.out_of_time():
+            return
+        alphabet = _rand_alphabet(rng, rng.randint(1, 8))
+        ignore = _rand_ignore(rng, alphabet, rng.randint(0, 2) if k % 4 else rng.randint(3, 6))
+        L = rng.choice([7, 8, 17, 64, 255, 256, 257, 1000, rng.randint(7, 3000)])
+        if k % 25 == 7:
+            L = [32767, 32768, 65535, 65536, 70000, 100000][(k // 25) % 6]
+        w = [1.0] * len(alphabet) + [0.3] * len(ignore)
+        s = ''.join(rng.choices(alphabet + ignore, weights=w, k=L))
+        case = {'kind': 'ohe', 'alphabet': alphabet, 'ignore': ignore, 's': s, 'dtype': _dn(DTYPES[k % len(DTYPES)]),
+                'variants': k % 3 == 0}
+        v = check_ohe(case)
+        rep.case(('ohe-long', k), section='ohe-long')
+        lim.report([x[:300] for x in v], case, _ohe_finding(case) if v else None)
+    # larger ignore sets: every string of length 1-2 and random ones
+    n = 0
+    for alphabet, ignore in big_ign:
+        syms = list(dict.fromkeys(alphabet + ignore))
+        strs = [''.join(t) for L in (1, 2) for t in itertools.product(syms, repeat=L)]
+        strs += [''.join(rng.choices(syms, k=rng.randint(3, 40))) for _ in range(40)]
+        for s in strs:
+            if rep.out_of_time():
+                return
+            n += 1
+            case = {'kind': 'ohe', 'alphabet': alphabet, 'ignore': ignore, 's': s, 'dtype': _dn(DTYPES[n % len(DTYPES)]),
+                    'variants': n % 4 == 0}
+            v = check_ohe(case)
+            rep.case(('ohe-bigign', tuple(alphabet), tuple(ignore), s), nontrivial=len(s) > 1, section='ohe-big-ignore')
+            lim.report(v, case, None)
+    # exhaustive enumeration
     n = 0
     for alphabet, ignore in configs:
         syms = alphabet + ignore
+        dna = alphabet == ACGT and ignore == ['N']
         maxL = small_len if len(syms) <= small_syms else big_len
         for L in range(1, maxL + 1):
             for tup in itertools.product(syms, repeat=L):
@@ -317,58 +397,39 @@ def _run_ohe(rep, lim):
                 n += 1
                 for dt in dts:
                     case = {'kind': 'ohe', 'alphabet': alphabet, 'ignore': ignore, 's': s, 'dtype': _dn(dt)}
+                    if L <= 2 or n % 4 == 0:
+                        case['variants'] = True
+                    if dna:
+                        # the DNA configuration is also called with arguments left to their defaults
+                        case['omit'] = OMITS[(n + len(dts)) % len(OMITS)] if L > 2 else OMITS[DTYPES.index(dt) % len(OMITS)]
                     v = check_ohe(case)
                     rep.case(('ohe', tuple(alphabet), tuple(ignore), s, _dn(dt)), nontrivial=L > 1,
                              sample=case, section='ohe-roundtrip')
                     lim.report(v, case, _ohe_finding(case) if v else None)
     rep.mark_exhaustive('one_hot_encode/characters round trip on every string of the listed lengths for %d (alphabet, ignore) pairs' % len(configs))
-    # rejection
-    outsiders_extra = ['é', '中']
-    for alphabet, ignore in configs:
-        pool = [chr(c) for c in range(1, 128) if chr(c) not in alphabet and chr(c) not in ignore]
-        outs = rng.sample(pool, 3) + outsiders_extra
-        low = [ch.lower() for ch in alphabet if ch.lower() != ch and ch.lower() not in alphabet and ch.lower() not in ignore]
-        if low:
-            outs.append(low[0])
-        for b in range(3):
-            base = ''.join(rng.choice(alphabet + ignore) for _ in range(rng.randint(0, 6)))
-            for o in outs:
-                for p in range(len(base) + 1):
-                    if rep.out_of_time():
-                        return
-                    case = {'kind': 'reject', 'alphabet': alphabet, 'ignore': ignore, 's': base[:p] + o + base[p:]}
-                    v = check_reject(case)
-                    rep.case(('rej', tuple(alphabet), tuple(ignore), case['s']), section='ohe-reject',
-                             sample=case if (b == 0 and p == 0 and o == outs[0]) else None)
-                    lim.report(v, case, 'outside-character-accepted')
-    # random long strings
-    for k in range(1500 if thorough else 150):
-        if rep.out_of_time():
-            return
-        alphabet = _rand_alphabet(rng, rng.randint(1, 8))
-        ignore = _rand_ignore(rng, alphabet, rng.randint(0, 2))
-        L = rng.choice([7, 8, 17, 64, 255, 256, 257, 1000, rng.randint(7, 3000)])
-        w = [1.0] * len(alphabet) + [0.3] * len(ignore)
-        s = ''.join(rng.choices(alphabet + ignore, weights=w, k=L))
-        case = {'kind': 'ohe', 'alphabet': alphabet, 'ignore': ignore, 's': s, 'dtype': _dn(DTYPES[k % len(DTYPES)])}
-        v = check_ohe(case)
-        rep.case(('ohe-long', k), section='ohe-long')
-        lim.report([x[:300] for x in v], case, _ohe_finding(case) if v else None)
+
+
 # ----------------------------------------------------------------------------------------------
 # reverse_complement
 # ----------------------------------------------------------------------------------------------
 
-def check_revcomp(case):
+def check_revcomp(case, ctx=None):
     """case: {'kind': 'revcomp', 'alphabet': [chars], 'partner': [chars] (involution, same order), 's': str,
-    'default': bool (use the function's default DNA map), 'dtype': name}"""
+    'default': bool (use the function's default DNA map), 'dtype': name, optional 'allow_N': False (only for strings
+    in which no N has to pass through), 'coded': bool (also a tensor with pairwise distinct entries instead of a
+    one-hot encoding), 'shared' / 'scribble': only inside a call history}"""
     out = []
     alphabet, partner, s = list(case['alphabet']), list(case['partner']), case['s']
     cmap = dict(zip(alphabet, partner))
     assert all(cmap[cmap[a]] == a for a in alphabet)
-    kw = {} if case.get('default') else {'complement_map': dict(cmap)}
+    kw = {} if case.get('default') else {'complement_map': _shared(ctx, case, 'cmap', cmap)}
     dt = DT[case.get('dtype', 'int8')]
     L, A = len(s), len(alphabet)
     n_ok = 'N' not in alphabet
+    if case.get('allow_N') is False:
+        assert not (n_ok and 'N' in s)
+        kw['allow_N'] = False
+    sigma = [alphabet.index(cmap[a]) for a in alphabet]
     exp = ''.join(('N' if (ch == 'N' and n_ok) else cmap[ch]) for ch in reversed(s))
     # string form
     r = None
@@ -396,14 +457,36 @@ def check_revcomp(case):
             RR = reverse_complement(R, **kw)
             if not torch.equal(RR.to(torch.float64), X0.to(torch.float64)):
                 out.append('tensor form is not an involution')
+            elif RR.dtype != X0.dtype:
+                out.append('tensor form is not an involution: rc(rc(X)) has dtype %s, X has %s' % (RR.dtype, X0.dtype))
             if r is not None:
                 Xr = one_hot_encode(r, alphabet=list(alphabet), dtype=dt, ignore=['N'] if n_ok else [])
                 if tuple(Xr.shape) != tuple(R.shape) or not torch.equal(Xr.to(torch.float64), R.to(torch.float64)):
                     out.append('string and tensor forms disagree: one_hot_encode(rc(s)) != rc(one_hot_encode(s)) for s = %r' % s)
+            _after(ctx, case, R)
         if not torch.equal(X, X0):
             out.append('reverse_complement modified its input tensor')
     except Exception as e:
         out.append('tensor form raised %s' % _exc(e))
+    if case.get('coded') and L:
+        # a tensor whose entries are pairwise distinct (not a one-hot encoding): same formula, same involution
+        try:
+            cdt = torch.float64 if dt.is_floating_point else torch.int64
+            Y = _coded(0, A, L, cdt)
+            Y0 = Y.clone()
+            R = reverse_complement(Y, **kw)
+            expY = Y0[sigma][:, list(range(L - 1, -1, -1))]
+            if tuple(R.shape) != (A, L) or not torch.equal(R.to(torch.float64), expY.to(torch.float64)):
+                out.append('tensor form on a tensor with distinct entries differs from X[sigma(c), L-1-p]: got %s expected %s'
+                           % (R.tolist() if L <= 8 else tuple(R.shape), expY.tolist() if L <= 8 else '...'))
+            else:
+                RR = reverse_complement(R, **kw)
+                if not torch.equal(RR.to(torch.float64), Y0.to(torch.float64)):
+                    out.append('tensor form is not an involution on a tensor with distinct entries')
+            if not torch.equal(Y, Y0):
+                out.append('reverse_complement modified its input tensor')
+        except Exception as e:
+            out.append('tensor form raised %s on a tensor with distinct entries' % _exc(e))
     return out
 
 
@@ -442,6 +525,10 @@ def _run_revcomp(rep, lim):
                 n += 1
                 case = {'kind': 'revcomp', 'alphabet': alphabet, 'partner': partner, 's': ''.join(tup), 'default': default,
                         'dtype': _dn(DTYPES[n % len(DTYPES)])}
+                if n % 3 == 0:
+                    case['coded'] = True
+                if n % 2 == 0 and ('N' in alphabet or 'N' not in tup):
+                    case['allow_N'] = False
                 v = check_revcomp(case)
                 rep.case(('rc', tuple(alphabet), tuple(partner), default, case['s']), nontrivial=L > 1,
                          sample=case, section='revcomp')
@@ -457,8 +544,12 @@ def _run_revcomp(rep, lim):
             partner, default = _rand_involution(rng, alphabet), False
         syms = alphabet + (['N'] if 'N' not in alphabet else [])
         s = ''.join(rng.choice(syms) for _ in range(rng.choice([7, 31, 100, rng.randint(7, 2000)])))
+        if k % 5 == 1:
+            s = s.replace('N', alphabet[0]) if 'N' not in alphabet else s
         case = {'kind': 'revcomp', 'alphabet': alphabet, 'partner': partner, 's': s, 'default': default,
-                'dtype': _dn(DTYPES[k % len(DTYPES)])}
+                'dtype': _dn(DTYPES[k % len(DTYPES)]), 'coded': k % 2 == 0}
+        if k % 5 == 1:
+            case['allow_N'] = False
         v = check_revcomp(case)
         rep.case(('rc-long', k), section='revcomp-long')
         lim.report([x[:300] for x in v], case, None)
@@ -479,19 +570,43 @@ def _coded(i, rows, L, dtype):
     return (i * 1000000 + c + p).to(dtype)
 
 
-def check_chunk(case):
+def _layout(x, layout):
+    """the same values in a different memory layout: 'T' = transposed view (what one_hot_encode returns),
+    'slice' = window of a larger tensor (non-zero storage offset, row stride > L), 'step' = every second column of a
+    tensor twice as wide"""
+    if layout == 'contig':
+        return x
+    rows, L = x.shape
+    if layout == 'T':
+        y = x.T.contiguous().T
+    elif layout == 'slice':
+        big = torch.full((rows + 2, L + 5), 7, dtype=x.dtype)
+        big[1:rows + 1, 3:L + 3] = x
+        y = big[1:rows + 1, 3:L + 3]
+    elif layout == 'step':
+        big = torch.full((rows, 2 * L), 7, dtype=x.dtype)
+        big[:, ::2] = x
+        y = big[:, ::2]
+    else:
+        raise ValueError(layout)
+    assert torch.equal(y, x)
+    return y
+
+
+def check_chunk(case, ctx=None):
     """case: {'kind': 'chunk', 'size', 'overlap', 'lengths': [..], 'rows', 'dtype', 'lform': list|numpy|tensor,
-    'xform': tensor|numpy}"""
+    'xform': tensor|numpy|contig (the chunk tensor as returned / as numpy array / as contiguous copy),
+    'layout': contig|T|slice|step (memory layout of the input sequences), 'positional': bool}"""
     out = []
     size, overlap, lengths, rows = case['size'], case['overlap'], list(case['lengths']), case['rows']
     dt = DT[case.get('dtype', 'int64')]
     stride = size - overlap
-    X = [_coded(i, rows, L, dt) for i, L in enumerate(lengths)]
+    X = [_layout(_coded(i, rows, L, dt), case.get('layout', 'contig')) for i, L in enumerate(lengths)]
     X0 = [x.clone() for x in X]
     K = [_n_chunks(L, size, overlap) for L in lengths]
     assert all(k >= 1 for k in K)
     try:
-        C = chunk(X, size=size, overlap=overlap)
+        C = chunk(X, size, overlap) if case.get('positional') else chunk(X, size=size, overlap=overlap)
     except Exception as e:
         return ['chunk raised %s' % _exc(e)]
     if tuple(C.shape) != (sum(K), rows, size):
@@ -507,9 +622,9 @@ def check_chunk(case):
         return out
     lf = case.get('lform', 'list')
     lens = lengths if lf == 'list' else (numpy.array(lengths) if lf == 'numpy' else torch.tensor(lengths))
-    Cin = C.numpy() if case.get('xform') == 'numpy' else C
+    Cin = C.numpy() if case.get('xform') == 'numpy' else (C.clone().contiguous() if case.get('xform') == 'contig' else C)
     try:
-        U = unchunk(Cin, lengths=lens, overlap=overlap)
+        U = unchunk(Cin, lens, overlap) if case.get('positional') else unchunk(Cin, lengths=lens, overlap=overlap)
     except Exception as e:
         return ['unchunk raised %s' % _exc(e)]
     if not isinstance(U, (list, tuple)) or len(U) != len(lengths):
@@ -530,6 +645,7 @@ def check_chunk(case):
     for x, x0 in zip(X, X0):
         if not torch.equal(x, x0):
             out.append('chunk/unchunk modified an input sequence')
+    _after(ctx, case, C)
     return out
 
 
@@ -560,12 +676,16 @@ def _report_chunk(rep, lim, case, v):
         lim.report(v, case, None)
 
 
+PERMS4 = list(itertools.permutations(range(4)))
+
+
 def _run_chunk(rep, lim):
     rng, thorough = rep.rng, rep.tier == 'thorough'
     cdts = ['int64', 'float64', 'float32', 'int32']
     n = 0
     for size in range(1, 41):
         for overlap in range(0, size):
+            stride = size - overlap
             singles = []
             if thorough:
                 for K in range(1, 9):
@@ -574,37 +694,281 @@ def _run_chunk(rep, lim):
             else:
                 for K in (1, 2, 3, rng.randint(4, 9)):
                     singles.append(_length_for(rng, size, overlap, K))
+                # the boundary between one and two chunks (longest one-chunk / shortest two-chunk sequence), the
+                # shortest one-chunk sequence and a longest-tail sequence with 2-3 chunks
+                singles += [size + stride - 1, size + stride, size, _length_for(rng, size, overlap, rng.choice([2, 3]), 10 ** 6)]
             cases = [[L] for L in dict.fromkeys(singles)]
             for _ in range(6 if thorough else 1):
                 ns = rng.randint(2, 4)
                 cases.append([_length_for(rng, size, overlap, rng.choice([1, 2, 3, rng.randint(4, 12)])) for _ in range(ns)])
+            # structured multi-sequence cases: chunk counts {1, 2, 3, many} in every order (cycled), so that a
+            # one-chunk sequence is first / in the middle / last; and 2-4 one-chunk sequences in a row
+            for j in range(3 if thorough else 1):
+                ks = [1, 2, 3, rng.randint(4, 8)]
+                perm = PERMS4[(n + j) % 24]
+                cases.append([_length_for(rng, size, overlap, ks[q], [None, 0, 10 ** 6][(n + q) % 3]) for q in perm])
+            cases.append([_length_for(rng, size, overlap, 1, [None, 0, 10 ** 6][(n + q) % 3]) for q in range(2 + n % 3)]
+                         + ([_length_for(rng, size, overlap, 2)] if n % 2 else []))
             for lengths in cases:
                 if rep.out_of_time():
                     rep.note('time budget reached in the chunk enumeration at size %d' % size)
                     return
                 n += 1
-                case = {'kind': 'chunk', 'size': size, 'overlap': overlap, 'lengths': lengths, 'rows': 1 + n % 3,
-                        'dtype': cdts[n % 4], 'lform': ['list', 'numpy', 'tensor'][n % 3], 'xform': 'numpy' if n % 5 == 0 else 'tensor'}
+                case = {'kind': 'chunk', 'size': size, 'overlap': overlap, 'lengths': lengths, 'rows': 1 + n % 5,
+                        'dtype': cdts[n % 4], 'lform': ['list', 'numpy', 'tensor'][n % 3],
+                        'xform': ['tensor', 'numpy', 'tensor', 'contig'][(n // 3) % 4],
+                        'layout': ['contig', 'T', 'slice', 'step'][(n // 2) % 4], 'positional': n % 7 == 0}
                 v = check_chunk(case)
                 Ks = [_n_chunks(L, size, overlap) for L in lengths]
-                rep.case(('chunk', size, overlap, tuple(lengths), case['rows'], case['dtype'], case['lform'], case['xform']),
+                rep.case(('chunk', size, overlap, tuple(lengths), case['rows'], case['dtype'], case['lform'], case['xform'], case['layout']),
                          nontrivial=max(Ks) > 1 or overlap > 0, sample=case,
                          section='chunk-unchunk-%s' % ('multi' if len(lengths) > 1 else ('1chunk' if Ks[0] == 1 else '2chunks' if Ks[0] == 2 else '3chunks' if Ks[0] == 3 else 'many')))
                 _report_chunk(rep, lim, case, v)
     rep.mark_exhaustive('chunk/unchunk for every size 1-40 x overlap 0..size-1 with the listed chunk counts')
 
 
+# ----------------------------------------------------------------------------------------------
+# call histories: many calls in ONE process
+# ----------------------------------------------------------------------------------------------
+# The statement quantifies over single calls, so the result of a call must not depend on the calls made before
+# it.  A history is a list of ordinary cases (ohe / reject / revcomp / chunk) evaluated in order with the oracles
+# above; in addition
+#   - steps flagged 'shared' hand the SAME list / dict object (rewritten by the caller between the calls) to the
+#     function as alphabet / ignore / complement_map,
+#   - steps flagged 'scribble' overwrite the returned tensor in place afterwards (the caller owns it),
+#   - every other returned tensor is kept and must be unchanged at the end of the history.
+
+_STEP = {}
+
+
+def _history_violations(case):
+    """[(step index, kind, text)]; a kept tensor is compared with its private copy after every step, so the step
+    index of 'changed by a later call' is that of the call that changed it"""
+    out = []
+    ctx = {'alist': [], 'ilist': [], 'cmap': {}, 'keep': []}
+    for k, st in enumerate(case['steps']):
+        ctx['step'] = k
+        for w in _STEP[st['kind']](st, ctx):
+            out.append((k, st['kind'], w[:400]))
+        still = []
+        for j, R, R0 in ctx['keep']:
+            if R.shape != R0.shape or not torch.equal(R, R0):
+                out.append((k, st['kind'], 'the tensor returned by the call of step %d (%s) was changed by this call' % (j, case['steps'][j]['kind'])))
+            else:
+                still.append((j, R, R0))
+        ctx['keep'] = still
+    return out
+
+
+def _fmt_hist(v, offset=0):
+    return ['call history, step %d (%s): %s' % (k + offset, kind, w) for k, kind, w in v]
+
+
+def check_history(case):
+    """case: {'kind': 'history', 'steps': [case, ...]}"""
+    return _fmt_hist(_history_violations(case))
+
+
+def _fresh_replay(case, timeout=240):
+    """replay(case) in a fresh interpreter (no state left behind by earlier calls of this run); None = could not run"""
+    import json
+    import subprocess
+    import sys
+    code = ("import json, sys, warnings, importlib\nwarnings.filterwarnings('ignore')\nimport torch\ntorch.set_num_threads(1)\n"
+            "m = importlib.import_module(%r)\nprint('\\n@@' + json.dumps(m.replay(json.load(sys.stdin))))\n" % __name__)
+    try:
+        pr = subprocess.run([sys.executable, '-c', code], input=json.dumps(case), capture_output=True, text=True, timeout=timeout)
+        lines = [l for l in pr.stdout.splitlines() if l.startswith('@@')]
+        return json.loads(lines[-1][2:]) if lines else None
+    except Exception:
+        return None
+
+
+def _str_with(rng, must, pool, extra):
+    chars = list(must) + [rng.choice(pool) for _ in range(extra)]
+    rng.shuffle(chars)
+    return ''.join(chars)
+
+
+def _ohe_steps(rng, alphabet, ignore, outsiders, k, dna_defaults=False, shared=False):
+    """one round-trip step on a string containing every letter and every ignored character, then one rejection
+    step for each character of `outsiders`"""
+    steps = []
+    syms = alphabet + ignore
+    st = {'kind': 'ohe', 'alphabet': list(alphabet), 'ignore': list(ignore), 's': _str_with(rng, syms, syms, rng.randint(0, 4)),
+          'dtype': _dn(DTYPES[k % len(DTYPES)]), 'variants': k % 2 == 0}
+    if shared:
+        st['shared'] = True
+    if k % 3 == 1:
+        st['scribble'] = True
+    omit = []
+    if dna_defaults and alphabet == ACGT:
+        omit.append('alphabet')
+        if ignore == ['N']:
+            omit.append('ignore')
+        if k % 2:
+            omit.append('dtype')
+        st['omit'] = omit
+    steps.append(st)
+    if k % 4 == 3:
+        steps.append(dict(st, scribble=False))           # the identical call again
+    for o in outsiders:
+        base = _str_with(rng, [], syms, rng.randint(0, 5))
+        p = rng.randint(0, len(base))
+        r = {'kind': 'reject', 'alphabet': list(alphabet), 'ignore': list(ignore), 's': base[:p] + o + base[p:]}
+        if shared:
+            r['shared'] = True
+        if omit:
+            r['omit'] = [x for x in omit if x != 'dtype']
+        steps.append(r)
+    return steps
+
+
+def _hist_ignore(rng, alphabet, dna_defaults=False, shared=False, n_steps=9):
+    """one alphabet, the ignore set changes from call to call (subsets of a pool of 4 characters); a character that
+    was ignored in an earlier call and is not in the current ignore set must be rejected"""
+    cand = [chr(c) for c in range(33, 127) if chr(c) not in alphabet and chr(c) != 'N']
+    pool = rng.sample(cand, 4)
+    if 'N' not in alphabet:
+        pool[0] = 'N'
+    plan = [pool[:2], [], pool[:1], pool[2:], pool[1:2], list(pool), []]
+    if dna_defaults:
+        plan = [['N']] + plan[:3] + [['N']] + plan[3:] + [['N']]
+    while len(plan) < n_steps:
+        plan.append(rng.sample(pool, rng.randint(0, 3)))
+    steps = []
+    for k, ign in enumerate(plan):
+        outs = [c for c in pool if c not in ign]
+        steps += _ohe_steps(rng, alphabet, ign, outs, k, dna_defaults, shared)
+    return {'kind': 'history', 'steps': steps}
+
+
+def _hist_partition(rng, shared=False, n_steps=12):
+    """a universe of 3-5 characters; every call splits it anew into letters (ordered), ignored characters and
+    outside characters - so the same letters return in another order, with other ignore sets, as sub- and
+    super-alphabets, and a former letter / ignored character becomes an outside character and vice versa"""
+    U = _rand_alphabet(rng, rng.randint(3, 5), lo=33)
+    steps = []
+    for k in range(n_steps):
+        u = list(U)
+        rng.shuffle(u)
+        a = rng.randint(1, len(u))
+        alphabet, rest = u[:a], u[a:]
+        i = rng.randint(0, min(2, len(rest)))
+        steps += _ohe_steps(rng, alphabet, rest[:i], rest[i:], k, False, shared)
+    return {'kind': 'history', 'steps': steps}
+
+
+def _hist_revcomp(rng, dna=False, shared=False, n_steps=10):
+    """one set of letters; the complement map (and sometimes the order of its keys) changes from call to call"""
+    base = list(ACGT) if dna else _rand_alphabet(rng, rng.randint(2, 6), lo=33)
+    steps = []
+    for k in range(n_steps):
+        alphabet = list(base)
+        if not dna and k % 3 == 2:
+            rng.shuffle(alphabet)
+        if dna and k % 3 == 0:
+            partner, default = ['T', 'G', 'C', 'A'], True
+        else:
+            if dna and k % 3 == 1:
+                alphabet = rng.sample(ACGT, 4)
+            partner, default = _rand_involution(rng, alphabet), False
+        syms = alphabet + (['N'] if 'N' not in alphabet else [])
+        st = {'kind': 'revcomp', 'alphabet': alphabet, 'partner': partner, 'default': default,
+              's': _str_with(rng, alphabet, syms, rng.randint(0, 4)), 'dtype': _dn(DTYPES[k % len(DTYPES)]), 'coded': k % 2 == 0}
+        if shared and not default:
+            st['shared'] = True
+        if k % 3 == 1:
+            st['scribble'] = True
+        steps.append(st)
+    return {'kind': 'history', 'steps': steps}
+
+
+def _hist_mixed(rng):
+    """steps of an ignore-set history, a complement-map history (both on the DNA alphabet, with default arguments)
+    and a few chunk / unchunk calls, interleaved in their original relative order"""
+    parts = [_hist_ignore(rng, list(ACGT), dna_defaults=True)['steps'], _hist_revcomp(rng, dna=True)['steps'], []]
+    for j in range(6):
+        size = rng.randint(1, 12)
+        overlap = rng.randint(0, size - 1)
+        parts[2].append({'kind': 'chunk', 'size': size, 'overlap': overlap, 'rows': rng.randint(1, 4), 'dtype': 'int64',
+                         'lengths': [_length_for(rng, size, overlap, rng.choice([1, 2, 3, 5])) for _ in range(rng.randint(1, 4))],
+                         'lform': ['list', 'numpy', 'tensor'][j % 3], 'xform': 'tensor', 'layout': ['contig', 'T'][j % 2],
+                         'scribble': j % 2 == 0})
+    order = [q for q, part in enumerate(parts) for _ in part]
+    rng.shuffle(order)
+    its = [iter(part) for part in parts]
+    return {'kind': 'history', 'steps': [next(its[q]) for q in order]}
+
+
+def _run_history(rep, lim):
+    rng, thorough = rep.rng, rep.tier == 'thorough'
+    hists = [('ignore-dna-defaults', _hist_ignore(rng, list(ACGT), dna_defaults=True)),
+             ('ignore-dna', _hist_ignore(rng, list(ACGT))),
+             ('ignore-dna-shared', _hist_ignore(rng, list(ACGT), shared=True))]
+    for rnd in range(4 if thorough else 1):
+        for A in range(1, 9):
+            hists.append(('ignore', _hist_ignore(rng, _rand_alphabet(rng, A, lo=33), shared=(A + rnd) % 2 == 0)))
+    for k in range(60 if thorough else 12):
+        hists.append(('partition', _hist_partition(rng, shared=k % 3 == 0)))
+    for k in range(40 if thorough else 8):
+        hists.append(('revcomp', _hist_revcomp(rng, dna=k % 2 == 0, shared=k % 4 >= 2)))
+    for k in range(10 if thorough else 2):
+        hists.append(('mixed', _hist_mixed(rng)))
+    before, fresh_left, long_left, unstored = [], 2, 2, 0
+    for h, (name, case) in enumerate(hists):
+        if rep.out_of_time():
+            rep.note('time budget reached in the call histories')
+            return
+        v = _history_violations(case)
+        for k, st in enumerate(case['steps']):
+            rep.case(('hist', name, h, k), section='history-' + name.split('-')[0], sample=case if k == 0 and h in (0, 11) else None)
+        if v:
+            # what is stored must fail when replayed in a FRESH process.  Re-running a shorter history here proves
+            # nothing (this process already carries the state left by the calls made so far), so: the history cut
+            # after its first failing step is tried in a fresh interpreter (at most twice per run); if that does
+            # not reproduce, everything called since the start of the run up to that step is stored instead.
+            cut = v[0][0] + 1
+            sub = {'kind': 'history', 'steps': case['steps'][:cut]}
+            fv = None
+            if fresh_left > 0:
+                fresh_left -= 1
+                fv = _fresh_replay(sub)
+            if fv:
+                lim.report(fv, sub, None)
+            elif fv is None and not before:
+                lim.report(_fmt_hist([x for x in v if x[0] < cut]), sub, None)
+            elif long_left > 0:
+                long_left -= 1
+                if fv is not None:
+                    rep.note('history %d (%s) fails only after the histories before it' % (h, name))
+                lim.report(_fmt_hist([x for x in v if x[0] < cut], len(before)), {'kind': 'history', 'steps': before + case['steps'][:cut]}, None)
+            else:
+                unstored += 1
+        before = before + case['steps']
+    if unstored:
+        rep.note('%d further call histories failed (not stored)' % unstored)
+
+
 def run(rep):
+    torch.set_num_threads(1)
     lim = _Lim(rep)
-    # chunk first (cheap, holds the known defect), then the other sections
+    # call histories first (cheap, and state left behind by them is seen by everything that follows), then chunk
+    # (cheap), then the other sections
+    _run_history(rep, lim)
     _run_chunk(rep, lim)
     _run_revcomp(rep, lim)
     _run_ohe(rep, lim)
     lim.finish()
 
 
+_STEP.update({'ohe': check_ohe, 'reject': check_reject, 'revcomp': check_revcomp, 'chunk': check_chunk})
+
+
 def replay(case):
     k = case.get('kind')
+    if k == 'history':
+        return check_history(case)
     if k == 'ohe':
         return check_ohe(case)
     if k == 'reject':
